@@ -53,7 +53,7 @@ class C16Machine(Machine):
            "target_column_last", "str_path", "pd_target_column", "later_row_also_fails",
            "result_missing_empty_cell", "target_cell_changed", "pd_missing_is_na", "pd_strict_raised",
            "zero_rows", "fault_in_other_column", "ambiguous_mode_converted_cell", "file_larger_than_8k", "table_ge_40_rows",
-           "eol_crlf", "eol_lf", "eol_mixed", "no_final_line_terminator", "sep_explicit_tab", "relative_path", "cell_with_unicode_line_boundary",
+           "eol_crlf", "eol_lf", "eol_mixed", "no_final_line_terminator", "sep_explicit_tab", "relative_path", "pd_target_is_source", "cell_with_unicode_line_boundary",
            "pd_index_custom", "pd_index_reversed", "pd_index_offset", "pd_index_duplicated", "pd_index_sliced"]
     )
 
@@ -262,8 +262,10 @@ class C16Machine(Machine):
             names = ["c" + str(i) for i in range(cfg["width"])]
             if rng.random() < 0.3:
                 names = list(range(cfg["width"]))
-            tc = rng.choice([None, None, "new", "other"])
+            tc = rng.choice([None, None, "new", "other", "same"])
             target = None
+            if tc == "same":
+                target = names[col]        # naming the source column as target is the same as leaving it out
             if tc == "new":
                 target = "t_new" if isinstance(names[0], str) else 99
             elif tc == "other" and cfg["width"] > 1:
@@ -603,8 +605,10 @@ class C16Machine(Machine):
         if first_fail is not None:
             raise Violation(PROP, "missing_raise", site, {"first_failing_row": first_fail[0], "op": _short(op)})
         out_col = col if target is None else target
-        if target is not None:
+        if target is not None and target != col:
             self.probe("pd_target_column")
+        if target is not None and target == col:
+            self.probe("pd_target_is_source")
         want_cols = list(names) + ([target] if (target is not None and target not in names) else [])
         if list(df.columns) != want_cols:
             raise Violation(PROP, "columns_changed", site, {"got": [str(x) for x in df.columns], "want": [str(x) for x in want_cols]})
